@@ -235,3 +235,84 @@ func rootIdent(e ast.Expr) *ast.Ident {
 		}
 	}
 }
+
+// pkgLevelVar resolves e to the package-level variable it is rooted at (x, x.f, x[i], *x, pkg.X, …), or nil.
+func pkgLevelVar(info *types.Info, e ast.Expr) *types.Var {
+	for {
+		switch x := e.(type) {
+		case *ast.Ident:
+			if v, ok := info.Uses[x].(*types.Var); ok && v.Pkg() != nil && v.Parent() == v.Pkg().Scope() {
+				return v
+			}
+			return nil
+		case *ast.SelectorExpr:
+			if id, ok := x.X.(*ast.Ident); ok {
+				if _, isPkg := info.Uses[id].(*types.PkgName); isPkg {
+					if v, ok := info.Uses[x.Sel].(*types.Var); ok && v.Pkg() != nil && v.Parent() == v.Pkg().Scope() {
+						return v
+					}
+					return nil
+				}
+			}
+			e = x.X
+		case *ast.IndexExpr:
+			e = x.X
+		case *ast.ParenExpr:
+			e = x.X
+		case *ast.StarExpr:
+			e = x.X
+		case *ast.SliceExpr:
+			e = x.X
+		default:
+			return nil
+		}
+	}
+}
+
+// pkgLevelWrites reports every construct under body that changes (or, with addr, takes the address of) a
+// package-level variable: assignment, ++/--, range into it, and the mutating builtins delete / clear / copy /
+// append-assign.
+func pkgLevelWrites(info *types.Info, body ast.Node, addr bool, visit func(pos token.Pos, v *types.Var, how string)) {
+	ast.Inspect(body, func(n ast.Node) bool {
+		switch x := n.(type) {
+		case *ast.AssignStmt:
+			if x.Tok == token.DEFINE {
+				return true
+			}
+			for _, t := range x.Lhs {
+				if v := pkgLevelVar(info, t); v != nil {
+					visit(t.Pos(), v, "assigned")
+				}
+			}
+		case *ast.IncDecStmt:
+			if v := pkgLevelVar(info, x.X); v != nil {
+				visit(x.Pos(), v, "incremented / decremented")
+			}
+		case *ast.RangeStmt:
+			if x.Tok == token.ASSIGN {
+				for _, t := range []ast.Expr{x.Key, x.Value} {
+					if t != nil {
+						if v := pkgLevelVar(info, t); v != nil {
+							visit(t.Pos(), v, "assigned by range")
+						}
+					}
+				}
+			}
+		case *ast.UnaryExpr:
+			if addr && x.Op == token.AND {
+				if v := pkgLevelVar(info, x.X); v != nil {
+					visit(x.Pos(), v, "has its address taken")
+				}
+			}
+		case *ast.CallExpr:
+			if id, ok := x.Fun.(*ast.Ident); ok && len(x.Args) > 0 {
+				if _, isB := info.Uses[id].(*types.Builtin); isB && (id.Name == "delete" || id.Name == "clear" || id.Name == "copy") {
+					if v := pkgLevelVar(info, x.Args[0]); v != nil {
+						visit(x.Pos(), v, "changed by "+id.Name)
+					}
+				}
+			}
+		}
+		return true
+	})
+}
